@@ -16,6 +16,8 @@ type UType struct {
 	Elem *UType
 	N    int    // carr size
 	Name string // named / iface
+	// Qualified: written as C.Name instead of Name (same type, other spelling)
+	Qualified bool
 }
 
 func (t *UType) clone() *UType {
@@ -106,8 +108,14 @@ func (c *UContract) bare(t *UType) string {
 	case "dict":
 		return "{String: " + c.bare(t.Elem) + "}"
 	case "named":
+		if t.Qualified {
+			return c.Name + "." + t.Name
+		}
 		return t.Name
 	case "iface":
+		if t.Qualified {
+			return "{" + c.Name + "." + t.Name + "}"
+		}
 		return "{" + t.Name + "}"
 	}
 	return t.K
@@ -540,12 +548,23 @@ func (c *UContract) subtle(ch Chooser, t *UType) *UType {
 	case "dict":
 		return &UType{K: "dict", Elem: c.subtle(ch, t.Elem)}
 	case "named":
+		// the same type spelled with the contract's name (must stay acceptable and usable)
+		if Chance(ch, "qualify", 1, 3) {
+			q := t.clone()
+			q.Qualified = !q.Qualified
+			return q
+		}
 		// a composite becomes the interface it conforms to, or is wrapped
 		if d := c.decl(t.Name); d != nil && len(d.Conforms) > 0 && Chance(ch, "toiface", 1, 2) {
 			return &UType{K: "iface", Name: d.Conforms[0]}
 		}
 		return &UType{K: "opt", Elem: t.clone()}
 	case "iface":
+		if Chance(ch, "qualify", 1, 3) {
+			q := t.clone()
+			q.Qualified = !q.Qualified
+			return q
+		}
 		if d := c.implOf(t.Name); d != nil {
 			return &UType{K: "named", Name: d.Name}
 		}
